@@ -418,7 +418,7 @@ pub fn crash_points(sink: &mut Sink, rng: &mut Rng, thorough: bool, work: &Path)
   let reps = if thorough { 30 } else { 2 };
   let mut case = 0;
   for rep in 0..reps {
-    for (kind, points) in [("append", &append_points[..]), ("chgstatus", &chg_points[..]), ("purge", &purge_points[..])] {
+    for (kind, points) in [("append", &append_points[..]), ("chgstatus", &chg_points[..]), ("chgstatus2", &chg_points[..]), ("purge", &purge_points[..])] {
       for point in points {
         case += 1;
         let dir = work.join(format!("c{}", case));
@@ -429,7 +429,7 @@ pub fn crash_points(sink: &mut Sink, rng: &mut Rng, thorough: bool, work: &Path)
         // preceding history: a set with a few MOCs (one removed, so that purge has work to do)
         let mut entries: Vec<Entry> = Vec::new();
         let mut list_txt = String::new();
-        for id in 1..=(2 + rng.below(3)) {
+        for id in 1..=(3 + rng.below(2)) {
           let mut e = random_entry(rng, id);
           e.status = 3;
           if e.ranges.is_empty() { e.ranges = vec![0..(1u64 << (2 * (29 - e.depth as u32)))]; }
@@ -445,7 +445,11 @@ pub fn crash_points(sink: &mut Sink, rng: &mut Rng, thorough: bool, work: &Path)
         // the update, killed at `point`; a large MOC (> BufWriter capacity) every other repetition
         let mut newe = random_entry(rng, 50);
         newe.status = 3;
-        if rep % 2 == 1 || newe.ranges.is_empty() {
+        if rep % 2 == 0 && newe.ranges.is_empty() {
+          // even repetitions: always a SMALL non-empty MOC (its ranges fit in the writer's buffer)
+          newe.ranges = vec![0..(1u64 << (2 * (29 - newe.depth as u32)))];
+        }
+        if rep % 2 == 1 {
           newe.depth = 16;
           let unit = 1u64 << (2 * (29 - 16));
           newe.ranges = (0..1200u64).map(|k| (3 * k) * unit..(3 * k + 1) * unit).collect(); // 19 kB of ranges
@@ -456,6 +460,8 @@ pub fn crash_points(sink: &mut Sink, rng: &mut Rng, thorough: bool, work: &Path)
         let r = match kind {
           "append" => run("mocset", &["append", file.to_str().unwrap(), "50", np.to_str().unwrap()], None, &envs),
           "chgstatus" => run("mocset", &["chgstatus", file.to_str().unwrap(), "deprecated", "2"], None, &envs),
+          // two identifiers in one command: the kill falls between the two status stores
+          "chgstatus2" => run("mocset", &["chgstatus", file.to_str().unwrap(), "deprecated", "2,3"], None, &envs),
           _ => run("mocset", &["purge", file.to_str().unwrap()], None, &envs),
         };
         sink.count(&format!("kill:{}", point));
@@ -488,10 +494,19 @@ pub fn crash_points(sink: &mut Sink, rng: &mut Rng, thorough: bool, work: &Path)
         let expected_after: String = match kind {
           "append" => format!("{};50,valid,{},{},{}", before, newe.depth, newe.ranges.len(), newe.ranges.len() * 2 * if newe.depth <= 13 { 4 } else { 8 }),
           "chgstatus" => before.replace("2,valid", "2,deprecated"),
+          "chgstatus2" => before.replace("2,valid", "2,deprecated").replace("3,valid", "3,deprecated"),
           _ => before.split(';').filter(|r| !r.contains(",removed,")).collect::<Vec<_>>().join(";"),
         };
         let view = if rows_now == before { "before" } else if rows_now == expected_after { "after" } else { "OTHER" };
-        if view == "OTHER" {
+        let mixed = view == "OTHER" && kind == "chgstatus2" && {
+          let (b, a, n): (Vec<&str>, Vec<&str>, Vec<&str>) = (before.split(';').collect(), expected_after.split(';').collect(), rows_now.split(';').collect());
+          b.len() == n.len() && a.len() == n.len() && (0..n.len()).all(|i| n[i] == b[i] || n[i] == a[i])
+        };
+        if mixed {
+          // every entry is intact and carries its old or its new status, but the listing as a whole is neither
+          // the state before nor the state after the command
+          sink.impl_failures.push(format!("C16 chgstatus-multi-id-not-atomic: after a kill between the status stores of `chgstatus deprecated 2,3` the listing mixes old and new statuses: {} (before {}; after {})", rows_now, before, expected_after));
+        } else if view == "OTHER" {
           sink.impl_failures.push(format!("C16 after a kill at {} the listing is neither the state before nor after: {} (before {}; after {})", point, rows_now, before, expected_after));
         }
         sink.emit(&format!("crashpoint {} {}", kind, point), "consistent", true);
